@@ -320,6 +320,265 @@ fn s26() {
     pub fn main_g2(which: &[String]) { for w in which { match w.as_str() { "s3" => s3(), "s10" => s10(), "s9" => s9(), "s8" => s8(), "s26" => s26(), _ => {} } } }
 }
 
+
+// ---- triage group 3 (script-level suspects S5, S6, S12, S16, S18, S22) ----
+mod g3 {
+    use super::*;
+pub fn res1(ret_code: i32, result: &str) -> HashMap<String, CallServiceResult> {
+    let mut res = HashMap::new();
+    res.insert("1".to_string(), CallServiceResult { ret_code, result: result.to_string() });
+    res
+}
+
+pub fn panic_msg(e: Box<dyn std::any::Any + Send>) -> String {
+    e.downcast_ref::<String>().cloned().or_else(|| e.downcast_ref::<&str>().map(|s| s.to_string())).unwrap_or_default()
+}
+
+/// Runs `f` under catch_unwind and prints REPRODUCED / NOT REPRODUCED. The panic location is printed by the panic hook.
+pub fn guard<F: FnOnce() -> InterpreterOutcome>(id: &str, f: F) -> bool {
+    match std::panic::catch_unwind(std::panic::AssertUnwindSafe(f)) {
+        Ok(o) => { println!("NOT REPRODUCED {id}: ret_code={} msg={}", o.ret_code, o.error_message.chars().take(160).collect::<String>()); false }
+        Err(e) => { println!("REPRODUCED {id}: {}", panic_msg(e)); true }
+    }
+}
+
+pub fn reencode(d: &air_interpreter_data::InterpreterData) -> Vec<u8> {
+    air_interpreter_data::InterpreterDataEnvelope::from_execution_result(d.trace.clone(), d.cid_info.clone(), d.signatures.clone(),
+        d.last_call_request_id, semver::Version::parse("0.64.1").unwrap()).serialize().unwrap()
+}
+
+pub fn decode(data: &[u8]) -> air_interpreter_data::InterpreterData {
+    let env = air_interpreter_data::InterpreterDataEnvelope::try_from_slice(data).unwrap();
+    air_interpreter_data::InterpreterData::try_from_slice(&env.inner_data).unwrap()
+}
+
+// S5: peer B honestly executes `(call B ("s" "g") [] y)` (no arguments) for particle "particle" and hands its data to V.
+// V's script has `(call B ("s" "g") [x] y)` at the same trace position, with x still undefined on V
+// (joinable VariableNotFound => argument_hash == None) => unwrap on None in handle_prev_state.
+fn s5() {
+    for (label, ret_code, result) in [("Executed", 0, "42"), ("Failed", 1, "\"boom\"")] {
+        let mut b = peer(2);
+        let mut v = peer(3);
+        let z = peer(4);
+        let script_b = format!(r#"(par (call "{z}" ("s" "f") [] x) (call "{b}" ("s" "g") [] y))"#, z = z.id, b = b.id);
+        let script_v = format!(r#"(par (call "{z}" ("s" "f") [] x) (call "{b}" ("s" "g") [x] y))"#, z = z.id, b = b.id);
+        let bid = b.id.clone();
+        let o1 = run(&mut b, &bid, &script_b, vec![], HashMap::new());
+        assert_eq!(o1.ret_code, 0, "{}", o1.error_message);
+        let o2 = run(&mut b, &bid, &script_b, vec![], res1(ret_code, result));
+        println!("S5 {label}: B ret={} msg={} trace={:?}", o2.ret_code, o2.error_message, decode(&b.prev).trace);
+        let data = b.prev.clone();
+        guard(&format!("S5-{label}"), || run(&mut v, &bid, &script_v, data, HashMap::new()));
+    }
+    // own RequestSentBy arm: V really requested call id 1 for `(call V ("s" "h") [] w)`; a malicious sender's current data
+    // claims that the joinable call `(call V ("s" "g") [x] y)` is RequestSentBy(V, 1); the host then delivers result "1".
+    {
+        use air_interpreter_data::*;
+        let mut v = peer(3);
+        let z = peer(4);
+        let script = format!(r#"(par (par (call "{z}" ("s" "f") [] x) (call "{v}" ("s" "g") [x] y)) (call "{v}" ("s" "h") [] w))"#, z = z.id, v = v.id);
+        let vid = v.id.clone();
+        let o1 = run(&mut v, &vid, &script, vec![], HashMap::new());
+        let mut d = decode(&v.prev);
+        println!("S5 own: V run1 ret={} msg={} reqs={} trace={:?}", o1.ret_code, o1.error_message, o1.call_requests.len(), d.trace);
+        let z_sent = ExecutedState::Call(CallResult::sent_peer_id(vid.clone().into()));
+        let own = ExecutedState::Call(CallResult::sent_peer_id_with_call_id(vid.clone().into(), 1));
+        d.trace = ExecutionTrace::from(vec![ExecutedState::par(3, 0), ExecutedState::par(1, 1), z_sent, own]);
+        let cur = reencode(&d);
+        guard("S5-own-RequestSentBy", || run(&mut v, &vid, &script, cur, res1(0, "42")));
+    }
+}
+
+// S18: (fail x) with x.error_code an integer that does not fit i64.
+fn s18() {
+    for (i, obj) in [
+        r#"{"error_code": 18446744073709551615, "message": "m"}"#,
+        r#"{"error_code": 9223372036854775808, "message": "m"}"#,
+        r#"{"error_code": 9223372036854775807, "message": "m"}"#,
+        r#"{"error_code": 1.5, "message": "m"}"#,
+        r#"{"error_code": 1e100, "message": "m"}"#,
+        r#"{"error_code": -1, "message": "m"}"#,
+    ].iter().enumerate() {
+        let mut a = peer(1);
+        let aid = a.id.clone();
+        let script = format!(r#"(seq (call "{a}" ("s" "f") [] x) (xor (fail x) (null)))"#, a = aid);
+        let o1 = run(&mut a, &aid, &script, vec![], HashMap::new());
+        assert_eq!(o1.ret_code, 0);
+        guard(&format!("S18-{i} {obj}"), || run(&mut a, &aid, &script, vec![], res1(0, obj)));
+    }
+}
+
+// S6: a name that is both a scalar and a fold iterator.
+fn s6() {
+    let mut a = peer(1);
+    let aid = a.id.clone();
+    let script = format!(r#"(seq (call "{a}" ("s" "f") [] x) (fold x x (seq (call "{a}" ("s" "g") [x]) (next x))))"#, a = aid);
+    let o1 = run(&mut a, &aid, &script, vec![], HashMap::new());
+    assert_eq!(o1.ret_code, 0, "{}", o1.error_message);
+    guard("S6", || run(&mut a, &aid, &script, vec![], res1(0, "[1,2]")));
+}
+
+// S22: single peer A; `body` is executed after `$s` got n (0 or 1) values and was canonicalized into #canon.
+fn s22() {
+    let bodies = [
+        "(ap #canon.$.length x)", "(ap #canon.length x)", "(fail #canon.length)", "(ap #canon x)", "(fail #canon.$.[0])", "(ap #canon.$.[0] x)", "(ap #canon.$.[100] x)",
+        "(ap #canon.$.[0].[1] x)", "(ap #canon.$.[0][1] x)", "(ap #canon.$.[0].a x)", "(ap #canon.$.[0].[1].[5] x)",
+        "(ap #canon.$.[0].[1].[1] x)", "(ap #canon.$.[0].[2].a x)", "(fail #canon.$.[0].[2])",
+        "(ap %last_error%.$.x y)", "(ap :error: y)", "(ap :error:.$.x y)", "(ap %last_error% y)", "(ap %last_error%.$.message y)",
+        "(seq (ap #canon x) (fail x))", "(seq (ap #canon.$.[0] x) (fail x))", "(seq (ap #canon.$.[0] x) (fail x.$.[1]))",
+        "(fold #canon it (seq (ap it.$.[1] y) (next it)))", "(fold #canon.$.[0] it (seq (ap it y) (next it)))",
+        "(fold #canon.$.[1] it (seq (ap it y) (next it)))", "(fold $s it (seq (ap it.$.[7] y) (next it)))",
+        "(fold #canon.$.[0].[1] it (seq (ap it y) (next it)))",
+        "(seq (ap 1 i) (ap #canon.$.[i] y))", "(seq (ap 0 i) (ap #canon.$.[i] y))", "(seq (ap 7 i) (ap #canon.$.[i] y))",
+        "(seq (ap \"a\" i) (ap #canon.$.[i] y))", "(seq (ap #canon.$.[0] i) (ap #canon.$.[i] y))", "(seq (ap -1 i) (ap #canon.$.[i] y))",
+        "(seq (ap 4294967296 i) (ap #canon.$.[i] y))", "(seq (ap 1.5 i) (ap #canon.$.[i] y))",
+        "(call %init_peer_id% (\"s\" \"g\") [#canon.$.[0] #canon.$.length #canon #canon.$.[3]])",
+        "(call %init_peer_id% (\"s\" \"g\") [#canon.$.[0] #canon.$.length #canon])",
+        "(seq (xor (fail 1 \"m\") (ap :error:.$.error_code y)) (null))",
+        "(xor (fail 1 \"m\") (fail :error:))", "(xor (fail 1 \"m\") (fail %last_error%))",
+        "(fail :error:)", "(fail %last_error%)",
+        "(xor (ap #canon.$.[9] q) (seq (ap :error: e) (fail e)))",
+        "(xor (ap #canon.$.[9] q) (seq (ap %last_error% e) (fail e)))",
+        "(xor (ap #canon.$.[9] q) (ap :error:.$.message e))",
+        "(seq (ap (\"k\" #canon) %map) (seq (canon %init_peer_id% %map #%cm) (seq (ap #%cm.$.k.[0] y) (ap #%cm.$.k.[5] y2))))",
+        "(seq (ap (\"k\" #canon) %map) (seq (canon %init_peer_id% %map #%cm) (seq (ap #%cm.$.zz y) (ap #%cm.$.length y2))))",
+        "(seq (ap (\"k\" #canon) %map) (seq (canon %init_peer_id% %map #%cm) (fold #%cm it (seq (ap it.$.value y) (next it)))))",
+    ];
+    let mut panics = 0;
+    for n in [0usize, 1] {
+        for body in bodies {
+            let mut a = peer(1);
+            let aid = a.id.clone();
+            let first = if n == 0 { "(null)".to_string() } else { format!(r#"(call "{aid}" ("s" "f") [] $s)"#) };
+            let script = format!(r#"(seq (seq {first} (canon "{aid}" $s #canon)) {body})"#);
+            let id = format!("S22 n={n} {body}");
+            if guard(&id, || {
+                let o1 = run(&mut a, &aid, &script, vec![], HashMap::new());
+                if n == 0 || o1.ret_code != 0 { return o1; }
+                run(&mut a, &aid, &script, vec![], res1(0, r#"[0,[1,2],{"a":3}]"#))
+            }) { panics += 1; }
+        }
+    }
+    println!("S22 summary: panics={panics}");
+}
+
+// S16: to_human_readable_data on empty / garbage / malformed inner data / honest data / 4000 byte mutations of honest rkyv data.
+fn s16() {
+    let mut a = peer(1);
+    let aid = a.id.clone();
+    let script = format!(r#"(seq (seq (call "{a}" ("s" "f") [] $s) (canon "{a}" $s #canon)) (seq (ap #canon.$.[0] x) (par (call "{a}" ("s" "g") [x] y) (fold $s i (seq (ap i $t) (next i))))))"#, a = aid);
+    let o1 = run(&mut a, &aid, &script, vec![], HashMap::new());
+    assert_eq!(o1.ret_code, 0, "{}", o1.error_message);
+    let o2 = run(&mut a, &aid, &script, vec![], res1(0, r#"{"a":[1,2.5,null,"x"]}"#));
+    assert_eq!(o2.ret_code, 0, "{}", o2.error_message);
+    let honest = a.prev.clone();
+    let env = air_interpreter_data::InterpreterDataEnvelope::try_from_slice(&honest).unwrap();
+    let with_inner = |inner: Vec<u8>| { let mut e = env.clone(); e.inner_data = inner.into(); e.serialize().unwrap() };
+    let mut bad_version = env.clone();
+    bad_version.versions.data_version = semver::Version::parse("99.0.0").unwrap();
+    let mut inputs: Vec<(String, Vec<u8>)> = vec![
+        ("empty".into(), vec![]),
+        ("garbage".into(), b"\x00\x01garbage\xff\xfe".to_vec()),
+        ("json".into(), br#"{"version":"0.6.0"}"#.to_vec()),
+        ("honest".into(), honest.clone()),
+        ("garbage inner".into(), with_inner(vec![0xffu8; 64])),
+        ("truncated inner".into(), with_inner(env.inner_data[..env.inner_data.len() / 2].to_vec())),
+        ("empty inner".into(), with_inner(vec![])),
+        ("bad version".into(), bad_version.serialize().unwrap()),
+        ("truncated envelope".into(), honest[..honest.len() / 2].to_vec()),
+    ];
+    let inner = env.inner_data.to_vec();
+    let mut seed: u64 = 0x1234_5678_9abc_def0;
+    for k in 0..4000 {
+        seed ^= seed << 13; seed ^= seed >> 7; seed ^= seed << 17;
+        let mut m = inner.clone();
+        let pos = (seed as usize) % m.len();
+        m[pos] = (seed >> 32) as u8;
+        if k % 3 == 0 { let p2 = ((seed >> 16) as usize) % m.len(); m[p2] ^= 1 << ((seed >> 40) % 8); }
+        inputs.push((format!("mut{k}"), with_inner(m)));
+    }
+    let (mut ok, mut err, mut panics) = (0, 0, 0);
+    for (label, input) in inputs {
+        let r = std::panic::catch_unwind(std::panic::AssertUnwindSafe(|| air::to_human_readable_data(input.clone()).map(|s| s.len()).map_err(|e| e.to_string())));
+        let verbose = !label.starts_with("mut");
+        match r {
+            Ok(Ok(n)) => { ok += 1; if verbose { println!("NOT REPRODUCED S16 {label}: Ok({n} bytes)"); } }
+            Ok(Err(e)) => { err += 1; if verbose { println!("NOT REPRODUCED S16 {label}: Err({})", e.chars().take(120).collect::<String>()); } }
+            Err(e) => { panics += 1; println!("REPRODUCED S16 {label}: {}", panic_msg(e)); }
+        }
+    }
+    println!("S16 summary: ok={ok} err={err} panics={panics}");
+}
+
+// S16b: deterministic single-byte mutation search over the honest rkyv data; then the same bytes as `current_data` of execute_air.
+fn s16b() {
+    let mut a = peer(1);
+    let mut b = peer(2);
+    let aid = a.id.clone();
+    // x's value CID / tetraplet CID are referenced from several places => shared Rc<str> nodes in the rkyv archive
+    let script = format!(r#"(seq (call "{a}" ("s" "f") [] x) (seq (call "{a}" ("s" "f") [] y) (call "{b}" ("s" "g") [x y])))"#, a = aid, b = b.id);
+    let o1 = run(&mut a, &aid, &script, vec![], HashMap::new());
+    assert_eq!(o1.ret_code, 0, "{}", o1.error_message);
+    let o2 = run(&mut a, &aid, &script, vec![], res1(0, "42"));
+    assert_eq!(o2.ret_code, 0, "{}", o2.error_message);
+    let mut res = HashMap::new();
+    res.insert("2".to_string(), CallServiceResult { ret_code: 0, result: "42".to_string() });
+    let o3 = run(&mut a, &aid, &script, vec![], res);
+    assert_eq!(o3.ret_code, 0, "{}", o3.error_message);
+    let honest = a.prev.clone();
+    println!("S16b honest trace: {:?}", decode(&honest).trace);
+    let env = air_interpreter_data::InterpreterDataEnvelope::try_from_slice(&honest).unwrap();
+    let inner = env.inner_data.to_vec();
+    let mut found = vec![];
+    for pos in 0..inner.len() {
+        for delta in [8u8, 64] {
+            let mut m = inner.clone();
+            m[pos] = m[pos].wrapping_add(delta);
+            let mut e = env.clone(); e.inner_data = m.into();
+            let bytes = e.serialize().unwrap();
+            let input = bytes.clone();
+            let r = std::panic::catch_unwind(std::panic::AssertUnwindSafe(|| air::to_human_readable_data(input).map(|s| s.len()).map_err(|e| e.to_string())));
+            if let Err(e) = r {
+                let msg = panic_msg(e);
+                println!("REPRODUCED S16b to_human_readable_data: inner[{pos}] += {delta} (of {} bytes): {}", inner.len(), msg.chars().take(100).collect::<String>().escape_debug());
+                let d = decode(&bytes);
+                let lens: Vec<usize> = d.trace.iter().filter_map(|st| match st { air_interpreter_data::ExecutedState::Call(c) => c.get_cid().map(|c| c.get_inner().len()), _ => None }).collect();
+                println!("S16b: mutated data passes rkyv validation; byte lengths of the trace CID strings (honest: 59 each) = {lens:?}");
+                found.push((pos, delta, bytes));
+                break;
+            }
+        }
+        if found.len() >= 3 { break; }
+    }
+    if found.is_empty() { println!("NOT REPRODUCED S16b"); }
+    for (pos, delta, bytes) in found {
+        b.prev.clear();
+        guard(&format!("S16b execute_air current_data with inner[{pos}] += {delta}"), || run(&mut b, &aid, &script, bytes.clone(), HashMap::new()));
+        b.prev = bytes.clone();
+        let params_guard = guard(&format!("S16b execute_air prev_data with inner[{pos}] += {delta}"), || {
+            let params = RunParameters::new(aid.clone(), b.id.clone(), 1, 1, fluence_keypair::KeyFormat::Ed25519.into(), b.secret.clone(), "particle".to_string(), u64::MAX, u64::MAX, u64::MAX, false);
+            air::execute_air(script.clone(), bytes.clone(), vec![], params, CallResultsRepr.serialize(&HashMap::new()).unwrap())
+        });
+        let _ = params_guard;
+    }
+}
+
+// S12 through the interpreter entry point: the script is parsed inside execute_air, outside of any catch.
+fn s12_exec() {
+    for script in ["(ap x.$.\u{e9} y)", "(seq (ap 1 x) (ap x.$.a\u{e9} y))", "(call %init_peer_id% (\"s\" \"f\") [%last_error%.$.\u{e9}])"] {
+        let mut a = peer(1);
+        let aid = a.id.clone();
+        guard(&format!("S12-exec {script}"), || run(&mut a, &aid, script, vec![], HashMap::new()));
+        match std::panic::catch_unwind(|| air_parser::parse(script).is_ok()) {
+            Ok(ok) => println!("NOT REPRODUCED S12-parse {script}: ok={ok}"),
+            Err(e) => println!("REPRODUCED S12-parse {script}: {}", panic_msg(e)),
+        }
+    }
+}
+
+    pub fn main_g3(which: &[String]) { for w in which { match w.as_str() { "s5" => s5(), "s18" => s18(), "s6" => s6(), "s22" => s22(), "s16" => s16(), "s16b" => s16b(), "s12" => s12_exec(), _ => {} } } }
+}
+
 // ---- deep nesting (C01 recursion findings): run each in its own process, a stack overflow aborts ----
 fn nested(n: usize) -> String {
     let mut s = String::with_capacity(n * 12);
@@ -370,4 +629,5 @@ fn main() {
     if which.is_empty() || which.iter().any(|w| w == "c03") { c03(); }
     g1::main_g1(&which);
     g2::main_g2(&which);
+    g3::main_g3(&which);
 }
